@@ -91,6 +91,7 @@ def parse_log(text):
                 cur["unsat_covers"].append({"check": name, "desc": d, "loc": lo, "status": status})
             elif status == "SATISFIED":
                 cur["sat_covers"].append(d)
+                cur.setdefault("_sat_keys", set()).add((d, lo))
             elif status == "UNDETERMINED":
                 cur.setdefault("undetermined", 0)
                 cur["undetermined"] += 1
@@ -138,7 +139,48 @@ def parse_log(text):
         if "CBMC failed" in ln or "CBMC timed out" in ln or "Status: ERROR" in ln or "out of memory" in ln.lower():
             cur["note"] += " " + ln.strip()
         i += 1
+    for r in results.values():
+        # `cover!(a && b)` compiles to two cover checks at one location; the witness is reachable
+        # when any of them is SATISFIED.
+        keys = r.pop("_sat_keys", set())
+        if r["unsat_covers"]:
+            r["unsat_covers"] = [c for c in r["unsat_covers"] if (c["desc"], c["loc"]) not in keys]
+            if not r["unsat_covers"] and r["covers_total"]:
+                r["covers_total"] = r["covers_sat"]
     return results
+
+
+def _kill_fat_cbmc(pgid, cap_kb, lf):
+    try:
+        out = subprocess.run(["ps", "-eo", "pid,pgid,rss,comm"], capture_output=True, text=True).stdout
+    except Exception:  # noqa: BLE001
+        return
+    avail_kb = 1 << 40
+    try:
+        for ln in open("/proc/meminfo"):
+            if ln.startswith("MemAvailable:"):
+                avail_kb = int(ln.split()[1])
+    except OSError:
+        pass
+    mine = []
+    for ln in out.splitlines()[1:]:
+        f = ln.split()
+        if len(f) < 4:
+            continue
+        pid, pg, rss, comm = int(f[0]), int(f[1]), int(f[2]), f[3]
+        if pg == pgid and comm.startswith("cbmc"):
+            mine.append((rss, pid))
+    fat = max(mine) if mine else None
+    for rss, pid in mine:
+        low_mem = avail_kb < 5 * 1024 * 1024 and fat and pid == fat[1] and rss > 1024 * 1024
+        if rss > cap_kb or low_mem:
+            try:
+                os.kill(pid, signal.SIGKILL)
+                lf.write(f"\n[vcheck watchdog] killed cbmc pid {pid}: RSS {rss // 1024} MB (cap {cap_kb // 1024} MB, "
+                         f"system available {avail_kb // 1024} MB); out of memory\n")
+                lf.flush()
+            except ProcessLookupError:
+                pass
 
 
 def kani_env(scratch):
@@ -201,15 +243,26 @@ def run_kani(scratch, harnesses, log_path, *, jobs=1, timeout_s=3600, harness_ti
         lf.flush()
         p = subprocess.Popen(cmd, cwd=scratch.src, env=env, stdout=lf, stderr=subprocess.STDOUT,
                              start_new_session=True)
-        try:
-            rc = p.wait(timeout=timeout_s)
-        except subprocess.TimeoutExpired:
+        # watchdog: no swap on this box, a runaway cbmc takes the machine down.  Any cbmc in our
+        # process group above the RSS cap is killed; Kani then reports "CBMC failed" (-> exit 2).
+        cap_kb = int(os.environ.get("VERIF_CBMC_RSS_GB", "14")) * 1024 * 1024
+        deadline = time.time() + timeout_s
+        rc = None
+        while True:
             try:
-                os.killpg(p.pid, signal.SIGKILL)
-            except ProcessLookupError:
+                rc = p.wait(timeout=3)
+                break
+            except subprocess.TimeoutExpired:
                 pass
-            p.wait()
-            rc = -9
+            _kill_fat_cbmc(p.pid, cap_kb, lf)
+            if time.time() > deadline:
+                try:
+                    os.killpg(p.pid, signal.SIGKILL)
+                except ProcessLookupError:
+                    pass
+                p.wait()
+                rc = -9
+                break
     wall = time.time() - t0
     with open(log_path, errors="replace") as f:
         text = f.read()
